@@ -91,7 +91,7 @@ def parse_sidecar(path, relsrc):
         if s.startswith("== "):
             flush()
             rest = s[3:].strip()
-            m = re.match(r"(item|skip|file-extra|file-pre|bootstrap-skip-unknown)\b\s*(.*)", rest)
+            m = re.match(r"(item|skip|file-extra|file-pre|bootstrap-skip-unknown|broadcast)\b\s*(.*)", rest)
             if not m:
                 raise ExtractError(f"{path}:{i}: bad section header {s!r}")
             kind, arg = m.group(1), m.group(2).strip()
@@ -105,6 +105,10 @@ def parse_sidecar(path, relsrc):
             if kind == "file-pre":
                 cur = None
                 raw_target = file_pre
+                continue
+            if kind == "broadcast":
+                cur = None
+                file_pre.append("@broadcast " + arg)
                 continue
             if kind == "bootstrap-skip-unknown":
                 cur = None
@@ -272,7 +276,16 @@ class Gen:
         self.emit(f"{ind}#[allow(unused_imports)] use vstd::prelude::*;")
         self.emit(f"{ind}#[allow(unused_imports)] use crate::prelude::*;")
         self.emit(f"{ind}#[allow(unused_imports)] use crate::spec::*;")
+        extra_groups = []
         if file_pre:
+            keep = []
+            for ln in file_pre.split("\n"):
+                if ln.startswith("@broadcast "):
+                    extra_groups += ln[len("@broadcast "):].split()
+                else:
+                    keep.append(ln)
+            file_pre = "\n".join(keep)
+        if file_pre.strip():
             self.emit(file_pre)
         # uses and child modules first (outside verus!), then the rest inside verus!{}
         rest = []
@@ -297,7 +310,8 @@ class Gen:
             else:
                 rest.append(it)
         self.emit(f"{ind}verus! {{")
-        self.emit(f"{ind}broadcast use crate::prelude::prelude_axioms;")
+        groups = ["prelude_axioms"] + extra_groups
+        self.emit(f"{ind}broadcast use {{" + ", ".join("crate::prelude::" + g_ for g_ in groups) + "};")
         for it in rest:
             self.item(it, relsrc, contracts, container=None, ind=ind)
         if file_extra:
